@@ -29,3 +29,53 @@ Corollary closed_no_dangling g root visited :
 Proof.
   intros H n P. destruct (closed_check_sound g root visited [] H n P) as [_ [E|[[] _]]]. exact E.
 Qed.
+
+(* ---- the trie-based checker computes the same boolean *)
+From Coq Require Import FMapPositive MSetPositive.
+
+Lemma key_inj a b : key a = key b -> a = b.
+Proof. unfold key. intros H. rewrite <- (N.pos_pred_succ a), <- (N.pos_pred_succ b). rewrite H. reflexivity. Qed.
+
+Lemma map_of_find g n : PositiveMap.find (key n) (map_of g) = entry g n.
+Proof.
+  unfold entry. induction g as [|[k v] r IH]; cbn [map_of find fst snd].
+  - apply PositiveMap.gempty.
+  - destruct (N.eqb_spec k n) as [->|Hne].
+    + rewrite PositiveMap.gss. reflexivity.
+    + rewrite PositiveMap.gso; [exact IH|]. intros E. apply key_inj in E. congruence.
+Qed.
+
+Lemma set_of_mem l n : PositiveSet.mem (key n) (set_of l) = nmemN n l.
+Proof.
+  unfold nmemN. induction l as [|x r IH]; cbn [set_of existsb].
+  - reflexivity.
+  - destruct (N.eqb_spec n x) as [->|Hne]; cbn [orb].
+    + apply PositiveSet.mem_spec. apply PositiveSet.add_spec. left. reflexivity.
+    + rewrite <- IH. apply Bool.eq_true_iff_eq. rewrite !PositiveSet.mem_spec, PositiveSet.add_spec.
+      split; [intros [E|H]; [apply key_inj in E; congruence|exact H] | intros H; right; exact H].
+Qed.
+
+Lemma forallb_ext' {A} (f g : A -> bool) l : (forall x, f x = g x) -> forallb f l = forallb g l.
+Proof. intros H. induction l as [|x r IH]; cbn [forallb]; [reflexivity|]. rewrite H, IH. reflexivity. Qed.
+
+Theorem closed_check_fast_eq g root visited dangling :
+  closed_check_fast g root visited dangling = closed_check g root visited dangling.
+Proof.
+  unfold closed_check_fast, closed_check. rewrite set_of_mem. f_equal; [f_equal|].
+  - apply forallb_ext'. intros n. rewrite map_of_find. destruct (entry g n) as [succs|].
+    + apply forallb_ext'. intros s. apply set_of_mem.
+    + apply set_of_mem.
+  - apply forallb_ext'. intros n. rewrite map_of_find. reflexivity.
+Qed.
+
+Corollary closed_fast_no_dangling g root visited :
+  closed_check_fast g root visited [] = true -> forall n, path g root n -> entry g n <> None.
+Proof. rewrite closed_check_fast_eq. apply closed_no_dangling. Qed.
+
+Corollary closed_fast_up_to_listed g root visited dangling :
+  closed_check_fast g root visited dangling = true ->
+  forall n, path g root n -> entry g n <> None \/ In n dangling.
+Proof.
+  rewrite closed_check_fast_eq. intros H n P.
+  destruct (closed_check_sound g root visited dangling H n P) as [_ [E|[D _]]]; [left; exact E|right; exact D].
+Qed.
